@@ -1050,7 +1050,8 @@ def shrink(v, observe):
 
 THEOREMS[:] = ['C12_table_sweep', 'C12_table', 'C12_known_operators', 'C12_extract',
                'C12_reject', 'C12_extract_bytes', 'C12_reject_bytes', 'C12_extract_bytes_total',
-               'C12_extract_bytes_total_release', 'C12_extract_total']
+               'C12_extract_bytes_total_release', 'C12_extract_total', 'C12_lex_render', 'C12_extract_bytes_rendered',
+               'C12_reject_bytes_rendered', 'C12_operator_spelling']
 RULE = ('exhaustive: every (level, operator) pair (5 levels x 73 operators + 2 unknown operators, at compatibility depth 0 and 1), '
         'reached by a shortest legal prefix, alone and followed by 5 probes that identify the level reached; generative: random '
         'walks of Figure 9 (length <= 60, operands as in Annex A or of any kind where the property does not constrain them, '
@@ -1064,8 +1065,7 @@ TRUSTED = ['coq/Model/Content.v: hand transcription of the extractor loop over t
            'gen/OpTable.v and gen/Trans.v are translated from the Rust sources on every run by props/c12.py regen()',
            'coq/Spec/Fig9.v: Figure 9 / Table 51 / Table 109 of ISO 32000-1 and the documented separator tokens, written by hand '
            '(reading decisions R1-R5 listed in its header)',
-           'that CSObjP reads a rendered stream back as its token list is checked per case (real lexer and cs_lex against the '
-           'case token list), not proved']
+           'coq/Spec/ContentSpelling.v (spellings of a content stream, on top of Spec/Spelling.v of C02): hand-written']
 ASSUMPTIONS = ['operand objects are not comments (the lexer never produces one: WhitespaceEOL consumes comments)',
                'fewer than 2^64 nested BX; lexer panics (2^31 nested parentheses in a literal string) are propagated as Panic',
                'the PDFObjContext recursion bound is the caller\'s (50 in the runner)']
@@ -1076,7 +1076,7 @@ LEVEL_TEXT = ('Coq theorems: (1) for every level of Figure 9 and every operator 
               'accepted and yields exactly the documented tokens; (3) every stream with an operator not permitted at its level, an '
               'unknown operator outside BX/EX or a text-showing operator with wrong operand count/kind is rejected - by induction on '
               'the operator list with invariant (level, compatibility depth); (4) the same for the bytes whenever the modelled lexer '
-              'reads them as such a token list; (5) the byte-level extractor never panics below 2^31 bytes.  Model tied to the '
+              'reads them as such a token list; (5) the byte-level extractor never panics below 2^31 bytes; (6) lexer round trip: every spelling of a stream (any white space/comments, operands in any C02 spelling, operators by name) is lexed as exactly its tokens, so (2)/(3) hold for the bytes of every spelling.  Model tied to the '
               'code by a differential run: every (level, operator) pair with level-identifying probes, random walks, single-step '
               'deviations, byte-level mutants')
 LEVEL_NOTE = ('trusted: Coq kernel (vm_compute in the sweep), hand transcriptions coq/Model/Content.v and ContentLex.v (+ Model/Prim.v, '
